@@ -103,7 +103,16 @@ def compile_ir(cmd, outdir, flavour='configured', extra=()):
     p2 = subprocess.run(['opt-14', '-S', '-passes=' + passes, '-o', '-'], input=p1.stdout, text=True, capture_output=True)
     if p2.returncode != 0:
         raise AnalysisBroken(f'opt failed on {cmd["unit"]}: {p2.stderr[-2000:]}')
-    text = normalise_new_helpers(p2.stdout, cmd['unit'])
+    text, renamed = recover_renamed_statics(p2.stdout, cmd['unit'])
+    text = normalise_new_helpers(text, cmd['unit'])
+    if renamed:
+        text += ''.join(f'\n; lecverif: file-local function {g} stands for {f_} of the reference tree (same signature, same referrers)' for g, f_ in sorted(renamed.items())) + '\n'
+    text2 = fold_select_compares(text)
+    if text2 is not text:
+        p3 = subprocess.run(['opt-14', '-S', '-passes=' + passes, '-o', '-'], input=text2, text=True, capture_output=True)
+        if p3.returncode != 0:
+            raise AnalysisBroken(f'opt failed on {cmd["unit"]} after folding status selects: {p3.stderr[-2000:]}')
+        text = p3.stdout
     with open(out, 'w') as fh:
         fh.write(text)
     return out
@@ -112,7 +121,165 @@ def compile_ir(cmd, outdir, flavour='configured', extra=()):
 # subexpression / redundant load elimination, threading of branches over phi-of-constants (status variables, merged error
 # exits) and CFG clean-up (if-chains on one value become a switch, two-armed diamonds become selects).  Behaviour-preserving
 # rewrites of the source converge on the same shape; nothing is inlined except helpers that are new w.r.t. the reference tree.
-NORMALISE = 'function(mem2reg,instsimplify,early-cse,jump-threading,simplifycfg,instsimplify)'
+NORMALISE = 'function(sroa,mem2reg,instsimplify,early-cse,jump-threading,simplifycfg,instsimplify,simplifycfg)'
+
+_NEGP = {'eq': 'ne', 'ne': 'eq', 'slt': 'sge', 'sge': 'slt', 'sgt': 'sle', 'sle': 'sgt', 'ult': 'uge', 'uge': 'ult', 'ugt': 'ule', 'ule': 'ugt'}
+
+def fold_select_compares(text):
+    """status codes chosen by a conditional expression and tested right away (`rc = c ? -E : 0; if (rc == 0)`) reach the IR as
+    `icmp (select c, K1, K2), K`.  instsimplify folds the comparison only when it equals c; the negated form needs a new
+    instruction, which only instcombine would create.  This step rewrites the comparison into c / not-c (as the defining
+    comparison with the inverse predicate when c is a comparison) so that branching on a freshly computed status is the
+    same shape as branching on the condition it was computed from.  Returns `text` itself when nothing matched."""
+    lines = text.split('\n')
+    changed = False
+    start = None
+    for n, ln in enumerate(lines):
+        if ln.startswith('define '):
+            start = n
+        elif ln == '}' and start is not None:
+            sel, cmpdef = {}, {}
+            for k in range(start, n):
+                m = re.match(r'\s*(%[\w.]+) = select i1 (%[\w.]+), (i\d+) (-?\d+), i\d+ (-?\d+)(,.*)?$', lines[k])
+                if m:
+                    sel[m.group(1)] = (m.group(2), int(m.group(4)), int(m.group(5)))
+                m = re.match(r'\s*(%[\w.]+) = icmp (\w+) (.*?)(, !dbg !\d+)?$', lines[k])
+                if m:
+                    cmpdef[m.group(1)] = (m.group(2), m.group(3))
+            if sel:
+                for k in range(start, n):
+                    m = re.match(r'(\s*)(%[\w.]+) = icmp (eq|ne) (i\d+) (%[\w.]+|-?\d+), (%[\w.]+|-?\d+)(, !dbg !\d+)?$', lines[k])
+                    if not m:
+                        continue
+                    a, b = m.group(5), m.group(6)
+                    if a in sel and re.match(r'-?\d+$', b):
+                        s_, kc = a, int(b)
+                    elif b in sel and re.match(r'-?\d+$', a):
+                        s_, kc = b, int(a)
+                    else:
+                        continue
+                    c, k1, k2 = sel[s_]
+                    t = (k1 == kc) if m.group(3) == 'eq' else (k1 != kc)
+                    f = (k2 == kc) if m.group(3) == 'eq' else (k2 != kc)
+                    dbg = m.group(7) or ''
+                    ind, res = m.group(1), m.group(2)
+                    if t == f:
+                        new = f'{ind}{res} = and i1 {"true" if t else "false"}, true{dbg}'
+                    elif t:
+                        new = f'{ind}{res} = and i1 {c}, true{dbg}'
+                    elif c in cmpdef and cmpdef[c][0] in _NEGP:
+                        new = f'{ind}{res} = icmp {_NEGP[cmpdef[c][0]]} {cmpdef[c][1]}{dbg}'
+                    else:
+                        new = f'{ind}{res} = xor i1 {c}, true{dbg}'
+                    lines[k] = new
+                    changed = True
+            start = None
+    return '\n'.join(lines) if changed else text
+
+def static_profile(text):
+    """per defined function of an IR unit: linkage, normalised type signature and the places that refer to it (functions whose
+    body mentions it, global initialisers with the position of the mention).  Used to recognise a file-local function of the
+    reference tree that was merely renamed: same signature, same referrers."""
+    fns, cur = {}, None
+    bodies, glob = {}, []
+    for ln in text.split('\n'):
+        if ln.startswith('define '):
+            m = re.match(r'define ([^@]*?)(@[\w.$]+)\((.*)\)[^)]*\{\s*$', ln)
+            if not m:
+                cur = None
+                continue
+            pre, name, params = m.groups()
+            sig_r = re.sub(r'\b(dso_local|internal|hidden|noundef|zeroext|signext|nonnull|noalias|nocapture|readonly|align \d+)\b', '', pre)
+            ps = []
+            depth, tok = 0, ''
+            for ch in params + ',':
+                if ch == ',' and depth == 0:
+                    ps.append(tok); tok = ''
+                else:
+                    depth += ch in '({[<'; depth -= ch in ')}]>'
+                    tok += ch
+            ps = [re.sub(r'\s+', ' ', re.sub(r'%[\w.]+\s*$', '', re.sub(r'\b(noundef|zeroext|signext|nonnull|noalias|nocapture|readonly|align \d+)\b', '', x))).strip() for x in ps if x.strip()]
+            fns[name] = {'internal': bool(re.search(r'\binternal\b', pre)), 'sig': re.sub(r'\s+', ' ', sig_r).strip() + ' (' + ', '.join(ps) + ')'}
+            cur = name
+            bodies[cur] = []
+        elif ln == '}':
+            cur = None
+        elif cur is not None:
+            bodies[cur].append(ln)
+        elif re.match(r'@[\w.$]+ = ', ln):
+            glob.append(ln)
+    refs = {n: set() for n in fns}
+    for caller, body in bodies.items():
+        for n in set(re.findall(r'@[\w.$]+', '\n'.join(body))):
+            if n in fns and n != caller:
+                refs[n].add('fn ' + caller)
+    for ln in glob:
+        g = ln.split(' = ')[0]
+        for k, n in enumerate(re.findall(r'@[\w.$]+', ln.split(' = ', 1)[1])):
+            if n in fns:
+                refs[n].add(f'gv {g} #{k}')
+    for n in fns:
+        fns[n]['refs'] = sorted(refs[n])
+    return fns
+
+_kstat = None
+def known_statics():
+    global _kstat
+    if _kstat is None:
+        import json
+        p = os.path.join(os.path.dirname(os.path.abspath(__file__)), 'known_statics.json')
+        _kstat = json.load(open(p)) if os.path.exists(p) else {}
+    return _kstat
+
+def recover_renamed_statics(text, unit):
+    """a file-local function of the reference tree that is absent from this unit, while exactly one new file-local function
+    has its type signature and is referred to from the same places (callers, op-table slots), was renamed: give it its
+    reference name back, so that the rules anchored at it examine the body that now plays its part.  (New functions that
+    match nothing are helpers and are inlined.)  -> (text, {new name: reference name})"""
+    KS = known_statics().get(unit, {})
+    if not KS:
+        return text, {}
+    prof = static_profile(text)
+    missing = [n for n in KS if n not in prof]
+    if not missing:
+        return text, {}
+    known = known_functions()
+    fresh = [n for n, d in prof.items() if d['internal'] and n not in known]
+    mapping = {}
+    def eff_refs(n, seen=()):
+        out = set()
+        for r in prof[n]['refs']:
+            if r.startswith('fn '):
+                c = r[3:]
+                if c in mapping:
+                    out.add('fn ' + mapping[c])
+                elif c in fresh and c not in seen:
+                    out |= eff_refs(c, seen + (n,))          # a new helper in between: it will be inlined into its own callers
+                else:
+                    out.add(r)
+            else:
+                out.add(r)
+        return out
+    for closure in (False, True):
+        changed = True
+        while changed:
+            changed = False
+            for F in missing:
+                if F in mapping.values():
+                    continue
+                cands = []
+                for G in fresh:
+                    if G in mapping or prof[G]['sig'] != KS[F]['sig']:
+                        continue
+                    rr = eff_refs(G) if closure else {('fn ' + mapping.get(r[3:], r[3:])) if r.startswith('fn ') else r for r in prof[G]['refs']}
+                    if sorted(rr) == KS[F]['refs']:
+                        cands.append(G)
+                if len(cands) == 1:
+                    mapping[cands[0]] = F
+                    changed = True
+    for G, F in mapping.items():
+        text = re.sub(re.escape(G) + r'(?![\w.$])', F, text)
+    return text, mapping
 
 _known = None
 def known_functions():
